@@ -62,6 +62,15 @@ func defsC10(tier string) []*ph.Def {
 		add([]*ph.CmdDef{mk("c1", k), mk("c2", ck{0, 0, 0})}, false)
 	}
 	add([]*ph.CmdDef{mk("c1", ck{1, 0, 0})}, true)
+	// Self("", description) called on a command and on its sub-command: the name they were declared under still selects them
+	{
+		n := len(out)
+		add([]*ph.CmdDef{mk("c1", ck{1, 0, 0}), mk("c2", ck{0, 0, 0})}, false)
+		for _, d := range out[n:] {
+			d.Root.Cmds[0].SelfDesc = true
+			d.Root.Cmds[0].Cmds[0].SelfDesc = true
+		}
+	}
 	// require-order set on a command only (inherited by its sub-commands, not by the root)
 	for _, k := range []ck{{1, 0, 0}, {2, 0, 0}, {2, 1, 0}} {
 		n := len(out)
